@@ -1,0 +1,13 @@
+//go:build verif
+
+package tmmirror
+
+// verifGateHook is installed by the /verif conformance harness (build tag "verif" only).
+// A blocking hook acts as a scheduler gate between the two phases of a Handle* call.
+var verifGateHook func(point string)
+
+func verifGate(point string) {
+	if verifGateHook != nil {
+		verifGateHook(point)
+	}
+}
